@@ -19,6 +19,10 @@ pub struct Stats {
     pub seeks: u64,
     pub forward_seek_bytes: u64,
     pub max_pos: u64,
+    /// Lowest stack address seen inside a reader call (0 = none): the deepest
+    /// point of the decoder's recursion, as the reader sits at the bottom of
+    /// every call chain.
+    pub min_sp: usize,
     /// First violation of the reader contract: (signature, detail).
     pub violations: Vec<(String, String)>,
     /// Once set every further call fails: the parse is being aborted.
@@ -66,7 +70,12 @@ impl CountingReader {
     /// Account for one call. Returns Err if the parse has been aborted or the
     /// budget is now exhausted.
     fn op(&mut self, what: &'static str) -> io::Result<()> {
+        let marker = 0u8;
+        let sp = std::hint::black_box(&marker) as *const u8 as usize;
         let mut st = self.stats.borrow_mut();
+        if st.min_sp == 0 || sp < st.min_sp {
+            st.min_sp = sp;
+        }
         if st.poisoned {
             return Err(abort_err());
         }
